@@ -61,6 +61,53 @@ def run(ctx):
     c.ob("R2", ok, sched, "delay-resolved-at-entry", "named / computed delays are resolved when the state's tasks are armed (at entry)" if ok else
          "_schedule_state_tasks no longer resolves the delay through _resolve_delay for each after-key", sched.node)
     shared.eligible_bucket_rules(ctx, "R8", "after")
+    # ---- R9 sync engine: leaving a state cancels exactly that state's timers; an expired timer fires only if it was not
+    #         cancelled, the interpreter is running and the owner is still active ---------------------------------------
+    from sa.util import canon_atom as _ca
+    sct = p.method("SyncInterpreter", "_cancel_state_tasks")
+    sel = [x for x in own_nodes(sct.node) if isinstance(x, (ast.ListComp, ast.GeneratorExp, ast.SetComp)) and "_after_events" in norm(x.generators[0].iter)]
+    if c.expect("R9", "selection of the timers of the state being left", len(sel), 1, sct, "SyncInterpreter._cancel_state_tasks no longer selects timers from the cancel-flag table"):
+        x = sel[0]
+        kv = norm(x.generators[0].target)
+        conds = x.generators[0].ifs
+        cond = conds[0] if len(conds) == 1 else None
+        parts = cond.values if isinstance(cond, ast.BoolOp) and isinstance(cond.op, ast.Or) else ([cond] if cond is not None and not isinstance(cond, ast.BoolOp) else [])
+        shapes = [_ca(a) for a in parts]
+        pref = any(t[0] == "truthy" and t[1].startswith(f"{kv}.startswith(") and t[3] is True for t in shapes)
+        only = all((t[0] == "truthy" and t[1].startswith(f"{kv}.startswith(") and t[3] is True) or (t[0] == "==" and kv in (t[1], t[2]) and t[3] is True) for t in shapes)
+        c.ob("R9", bool(shapes) and pref and only, sct, "cancels-only-the-states-own-timers", "the timers cancelled are those keyed by the state (its id, or '<id>::...')" if shapes and pref and only else
+             f"the selection '{norm(cond) if cond is not None else [norm(z) for z in conds] or 'no filter'}' is not 'the key is the state id or starts with its prefix': leaving one state "
+             f"cancels the pending timers of other active states (sibling regions, ancestors), or leaves its own running", x)
+        selv = next((norm(a.targets[0]) for a in own_nodes(sct.node) if isinstance(a, ast.Assign) and any(x is y for y in ast.walk(a.value))), None)
+        sets = [y for y in own_nodes(sct.node) if isinstance(y, ast.Call) and isinstance(y.func, ast.Attribute) and y.func.attr == "set" and "_after_events" in norm(y.func.value)]
+        if c.expect("R9", "signalling of the selected cancel flags", len(sets), 1, sct, "SyncInterpreter._cancel_state_tasks no longer sets the cancel flags it selected: the timer threads keep waiting and fire"):
+            for y in sets:
+                at = [_ca(a, pol) for a, pol in guards_at(sct, y)]
+                bad = [t for t in at if (t[0] == "truthy" and t[1] == selv and t[3] is False) or (t[0] == "truthy" and ((t[1] == "False" and t[3]) or (t[1] == "True" and not t[3])))]
+                lp_ok = any(isinstance(l, ast.For) and norm(l.iter) == selv for l in enclosing_loops(sct, y))
+                c.ob("R9", not bad and lp_ok, sct, "every-selected-flag-is-set", "every selected cancel flag is set" if not bad and lp_ok else
+                     f"the cancel flags are set only under {bad or 'a loop that does not run over the selection'}: with timers pending for the state nothing is cancelled", y)
+        pfx = [a for a in own_nodes(sct.node) if isinstance(a, ast.Assign) and isinstance(a.value, ast.JoinedStr) and "::" in norm(a.value)]
+        c.ob("R9", bool(pfx), sct, "prefix-carries-the-separator", "the key prefix ends with the '::' separator" if pfx else
+             "the key prefix no longer ends with '::': the timers of a state whose id merely extends this one's id are cancelled too", sct.node)
+    sat = p.method("SyncInterpreter", "_after_timer")
+    workers = [n_ for n_ in sat.nested.values() if any(isinstance(y, ast.Call) and isinstance(y.func, ast.Attribute) and y.func.attr == "wait" for y in own_nodes(n_.node))]
+    if c.expect("R9", "timer worker of SyncInterpreter._after_timer", len(workers), 1, sat, "the sync after-timer no longer waits in a worker"):
+        w = workers[0]
+        sends = [y for y in own_nodes(w.node) if isinstance(y, ast.Call) and isinstance(y.func, ast.Attribute) and y.func.attr == "send" and norm(y.func.value) == "self"]
+        if c.expect("R9", "delivery of the after-event by the timer worker", len(sends), 1, w, "the timer worker no longer sends the after-event: delayed transitions never fire"):
+            for y in sends:
+                at = [_ca(a, pol) for a, pol in guards_at(w, y) if not isinstance(a, ast.BoolOp)]
+                raw = guards_at(w, y)
+                wait_vars = {norm(a.targets[0]) for a in own_nodes(w.node) if isinstance(a, ast.Assign) and isinstance(a.value, ast.Call) and isinstance(a.value.func, ast.Attribute) and a.value.func.attr == "wait"}
+                not_cancelled = any(t[0] == "truthy" and (t[1] in wait_vars or ".wait(" in t[1]) and t[3] is False for t in at)
+                running = ("==", "'running'", "self.status", True) in at
+                owner = any(t[0] == "truthy" and t[1].startswith("any(") and "owner_id" in t[1] and "_active_state_nodes" in t[1] and t[3] is True for t in at)
+                ok = not_cancelled and running and owner and not any(isinstance(a, ast.Constant) for a, pol in raw)
+                c.ob("R9", ok, w, "fires-only-if-not-cancelled-running-and-owner-active",
+                     "an expired timer sends its event only if it was not cancelled, the interpreter is running and the owning state is still active" if ok else
+                     f"the send of the expired timer is guarded by {at}: it needs 'not cancelled' ({not_cancelled}), 'status is running' ({running}) and 'the owner is "
+                     f"still active' ({owner}) as separate positive tests - otherwise a delayed transition fires after its state was left or after stop()", y)
     # ---- R7 several delays on one state are independent: nothing but 'continue' (or a raise) leaves an arming loop early ----
     for l in [x for x in own_nodes(sched.node) if isinstance(x, ast.For) and (".after" in norm(x.iter) or ".invoke" in norm(x.iter))]:
         early = [y for st_ in l.body for y in ast.walk(st_) if isinstance(y, (ast.Break, ast.Return))
